@@ -1108,6 +1108,9 @@ func (f *frame) applyContract(ct *Contract, calleeName string, params []paramInf
 	}
 	if !f.specMode {
 		for i, rq := range ct.Requires {
+			if rq.Assumed {
+				continue // entry-assumes: not checked at call sites
+			}
 			t, err := sc.evalBool(rq.E)
 			if err != nil {
 				vc.errs = append(vc.errs, fmt.Sprintf("%s: %v", rq.Line, err))
